@@ -43,6 +43,8 @@ func runC15(p *eng.Prog, r *eng.Report, tier string) {
 	}
 	chanRulesFiltered(c, "C15.5", scope, why, "ibb.")
 	c15Close(c)
+	waitBoundedByDeadline(c, "C15.18", "ibb", 1)
+	c15EveryPacketHandled(c, "C15.19")
 	c15OpenRegistered(c)
 	c15BlockBounded(c)
 	// C15.2 the session id that selects the stream is the payload's own sid
@@ -985,4 +987,45 @@ func wakesReaders(f *eng.Fn) func(eng.Point, ast.Node) bool {
 		})
 		return found
 	}
+}
+
+// c15EveryPacketHandled (C15.19): packets are numbered consecutively and every
+// numbered packet has to pass through handlePayload, which advances the
+// expected number: a packet that decodes and is then dropped by the carrier's
+// handler (an "empty packet needs no work" shortcut) leaves the counter
+// behind, and every later packet is refused as out of sequence. After the
+// decode of a data packet in HandleMessage / HandleIQ every return is the
+// result of handlePayload, or of the malformed-packet refusal.
+func c15EveryPacketHandled(c *cx, id string) {
+	n := 0
+	for _, name := range []string{"(*Handler).HandleMessage", "(*Handler).HandleIQ"} {
+		f := c.fn(id, "ibb", name)
+		if f == nil {
+			continue
+		}
+		g := f.Graph()
+		for _, cl := range f.Calls("encoding/xml.Decoder.Decode*") {
+			if len(cl.Args) == 0 {
+				continue
+			}
+			tt := eng.TypeStr(f.Info().TypeOf(cl.Args[0]))
+			if !strings.Contains(tt, "ibb.dataMessage") && !strings.Contains(tt, "ibb.dataPayload") {
+				continue
+			}
+			dp, ok := g.Where(cl)
+			if !ok {
+				continue
+			}
+			for _, rs := range g.Returns {
+				rp, _ := g.Where(rs)
+				if !g.Reachable(g.After(dp), rp, nil, nil) {
+					continue
+				}
+				n++
+				okr := f.ContainsCall(rs, "ibb.handlePayload") != nil || f.ContainsCall(rs, "ibb.refuseMalformed") != nil
+				c.r.Check(id, f, "return after a data packet was decoded", "O: a decoded data packet is handed to handlePayload (which checks and advances the sequence number) or refused as malformed - never dropped by the carrier's handler", rs.Pos(), okr, "the packet is dropped here: the expected sequence number is not advanced and every later packet is refused")
+			}
+		}
+	}
+	c.r.Floor(id, "returns after the decode of a data packet", n, 4)
 }
